@@ -180,6 +180,8 @@ func genC13(g *G) {
 
 	alpha := []string{"k", "K", "K", "s", "S", "ſ", "σ", "ς", "Σ", "a", "A", "é", "É", "ß", "ẞ", "ı", "İ", "i", "I", "1", " ",
 		"µ", "μ", "Μ", "θ", "ϑ", "Θ", "ϴ", "в", "В", "ᲀ", "ͅ", "ι", "Ι", "ι", "\U00010400", "\U00010428", "z"}
+	// runes that fold although they are not letters (numerals, enclosed letters), title-case digraphs
+	alpha = append(alpha, "Ⅷ", "ⅷ", "Ⓐ", "ⓐ", "ǅ", "ǆ", "Ǆ")
 	odd := []string{"�", "\xff", "\xc3", "\xed\xa0\x80", "\xe2\x84", "\xf0\x90\x90", "\x80", "\x00"}
 	pick := func(xs []string) string { return xs[g.Rnd.IntN(len(xs))] }
 	emit := func(s, sub string) {
@@ -316,6 +318,14 @@ func genC13(g *G) {
 			str = pick([]string{" ", "\n", " ", ""}) + str + pick([]string{" ", "\t\n", ""})
 		}
 		emitST(g, str, sep)
+	}
+	// many pieces, all blank or nearly all (the result is a non-nil empty slice however many were dropped)
+	for _, n := range []int{31, 32, 33, 34, 40, 100, 1000} {
+		for _, unit := range []string{",", " ,", ", ", "\t,\n"} {
+			emitST(g, strings.Repeat(unit, n), ",")
+			emitST(g, strings.Repeat(unit, n)+"x", ",")
+			emitST(g, "x"+strings.Repeat(unit, n), ",")
+		}
 	}
 	for _, p := range [][2]string{{"", ","}, {" ", ","}, {",", ","}, {" , ,\t, ", ","}, {"||  ||", "||"}, {"a", ""}, {"abc", ""}, {" a b ", ""}} {
 		emitST(g, p[0], p[1])
